@@ -15,4 +15,12 @@ CHECKS = {
                                          "'excluded by a Remove relation' / 'reachable through Add' are read generously: the remover / adder may be any state that was active before, called, Add-implied or active afterwards"],
         },
     },
+    "C01": {
+        "pkg": "harness/c01",
+        "budget_s": {"quick": 120, "thorough": 1500},
+        "meta": {
+            "rule": "explicit-state BFS (ordered active list) over enumerated schemas incl. Multi/Auto x {add,remove,set,toggle,canadd,canremove over all non-empty subsets, AddErr} x handler configs {none, no-op bindings, veto on <=2 Auto states' Enter}; every step: all views vs Time(nil), per-state tick delta rule, tracer before/after chain, OnChange; non-trivial = step with an auto transition, a cancel, or a +2 Multi tick",
+            "assumptions": SEQ_ASSUME + ["the concurrent-reader half of C01 is checked by the SCHED harness c01s when built; this evidence is the sequential half", "a Multi state called by Remove that stays active may tick by 0 or 2 (the statement only fixes Add)"],
+        },
+    },
 }
